@@ -74,13 +74,17 @@ func canonicalIssues(data []byte) string {
 		if msg := keysWithin(in, []string{"address", "amount", "type"}, []string{"address", "amount", "type"}); msg != "" {
 			return "input: " + msg
 		}
-		amt, ok := getFold(in, "amount").(json.Number)
-		if !ok {
-			return "amount is not a number"
-		}
-		u, err := parseUintStrict(string(amt))
-		if err != nil || u > math.MaxInt64 {
-			return "amount out of int64"
+		var u uint64
+		if av := getFold(in, "amount"); av != nil { // (a JSON null leaves the amount at zero)
+			amt, ok := av.(json.Number)
+			if !ok {
+				return "amount is not a number"
+			}
+			var err error
+			u, err = parseUintStrict(string(amt))
+			if err != nil || u > math.MaxInt64 {
+				return "amount out of int64"
+			}
 		}
 		ty, _ := getFold(in, "type").(string)
 		if fat2.StringToTicker(ty) == fat2.PTickerInvalid {
@@ -153,6 +157,16 @@ func getFold(m map[string]interface{}, key string) interface{} {
 	return nil
 }
 
+// hasFold: the key is present (whatever its value, null included).
+func hasFold(m map[string]interface{}, key string) bool {
+	for k := range m {
+		if strings.EqualFold(k, key) {
+			return true
+		}
+	}
+	return false
+}
+
 // keysWithin: every key (case-folded) is allowed, every required key present.
 func keysWithin(m map[string]interface{}, allowed, required []string) string {
 	for k := range m {
@@ -167,7 +181,7 @@ func keysWithin(m map[string]interface{}, allowed, required []string) string {
 		}
 	}
 	for _, r := range required {
-		if getFold(m, r) == nil {
+		if !hasFold(m, r) {
 			return "missing key " + r
 		}
 	}
@@ -479,6 +493,63 @@ func scenCodec(rep *Report, tier string, seed int64) {
 						rep.Disagree("validate", fmt.Sprintf("h=%d impl=%s model=%s content=%s", h, want, ans, raw), path)
 					}
 				}
+			}
+		}
+	}
+	// structure-level fuzzing of the decoders against the model of them
+	nf := 6000
+	if tier == "thorough" {
+		nf = 60000
+	}
+	for i := 0; i < nf; i++ {
+		var txs []fat2.Transaction
+		from := randAddr()
+		for k := 0; k < 1+r.Intn(2); k++ {
+			if r.Intn(2) == 0 {
+				txs = append(txs, Transfer(from, tickers(), fat2.AddressAmountTuple{Address: randAddr(), Amount: uint64(r.Intn(1000))}, fat2.AddressAmountTuple{Address: randAddr(), Amount: uint64(r.Intn(1000))}))
+			} else {
+				src := tickers()
+				dst := tickers()
+				for dst == src {
+					dst = tickers()
+				}
+				txs = append(txs, Conversion(from, src, uint64(r.Intn(100000)), dst))
+			}
+		}
+		tree := canonicalTree(txs)
+		var kinds []string
+		for k := 0; k < r.Intn(4); k++ {
+			kinds = append(kinds, mutateTree(tree, r))
+		}
+		var sb strings.Builder
+		tree.text(&sb)
+		raw := sb.String()
+		line, clen, okTree := TreeLine([]byte(raw))
+		if !okTree {
+			continue
+		}
+		var tb fat2.TransactionBatch
+		uerr := tb.UnmarshalJSON([]byte(raw))
+		want := fmt.Sprintf("reject len=%d", clen)
+		if uerr == nil {
+			want = RenderDecoded(&tb, clen)
+		}
+		rep.Count(fmt.Sprintf("jsonfuzz:accepted=%v", uerr == nil))
+		for _, k := range kinds {
+			rep.Count("jsonfuzz:" + k)
+		}
+		rep.Case(fmt.Sprintf("jsonfuzz|%s|accepted=%v", strings.Join(kinds, "+"), uerr == nil), true)
+		if ans := m.Ask("json " + line); ans != want {
+			path := WriteReplay(rep.Property, "codec-decode", Replay{Property: rep.Property, Scenario: "codec", Seed: seed,
+				What: "fat2's JSON decoders and the model of them disagree", Extra: map[string]interface{}{"content": raw, "impl": want, "model": ans, "edits": kinds}})
+			rep.Disagree("json-decode:"+strings.Join(kinds, "+"), fmt.Sprintf("impl=%s model=%s content=%s", want, ans, raw), path)
+		}
+		// the specification on the same document: accepted => canonical, and it re-encodes
+		if uerr == nil && tb.ValidData() == nil {
+			if issue := canonicalIssues([]byte(raw)); issue != "" {
+				path := WriteReplay(rep.Property, "codec", Replay{Property: rep.Property, Scenario: "codec", Seed: seed,
+					What: "a non-canonical batch content was accepted: " + issue, Extra: map[string]interface{}{"content": raw, "edits": kinds}})
+				rep.Violate("codec:accepted-noncanonical:"+strings.Fields(issue)[0], issue+": "+raw, path)
 			}
 		}
 	}
